@@ -98,5 +98,17 @@ CHECKS["C15"] = {
     "note": "Trusted: vf/ref.py tables; exact comparison for dyadic coefficients, tolerance 1e-9*sum|coef| for the float class.",
     "technique": _T_TT,
 }
+CHECKS["C04"] = {
+    "text": "Generated sources (raw dicts with unsorted/repeated labels and all ten model types, refreshed state, <= 6 variables, degree <= 6) x one of 14 conversion / export functions where no reduction is needed; the result's truth table must equal the source's under boolean 0 <-> spin +1, 1 <-> -1 and label -> mapping integer; convert_solution is exercised over all 2^n solutions in boolean and spin form as dict/list/tuple with the matching spin flag; exports Q, h/J, matrix_to_qubo, qubo_to_matrix (symmetric x array) describe the same function; documented result types; source unchanged.",
+    "design_ref": "DESIGN.md section 4, C04",
+    "note": "Trusted: vf/ref.py tables. Exact comparison for dyadic coefficients, 1e-9*sum|coef| for the float class. Cross-type cases are checked for the function only.",
+    "technique": _T_TT,
+}
+CHECKS["C18"] = {
+    "text": "Generated G of every type and raw dicts: subvalue (function and method) with binary, arbitrary-number and sympy-symbol values must equal G with the values substituted on every assignment of the remaining variables and keep G's type; subgraph must equal G without its constant with outside variables fixed to connections (default 0); normalize (function and method) must scale all coefficients by one common factor to the requested maximum magnitude and keep the type; inputs unchanged.",
+    "design_ref": "DESIGN.md section 4, C18",
+    "note": "Trusted: vf/ref.py tables. Repeated labels with non-idempotent substituted values are counted ambiguous and not judged. Symbolic/float classes with tolerance 1e-9*scale.",
+    "technique": _T_TT,
+}
 for e in ENGINES:
     e["serves_properties"] = sorted(CHECKS)
